@@ -178,6 +178,9 @@ func spell(toks []string, variant int) string {
 					"m" + name + optws() + "<" + optws() + "2",
 					"m" + name + optws() + ">=" + optws() + "1",
 					"m" + name + optws() + "<=" + optws() + "1",
+					// comparisons with a float literal (typed as float comparisons of an integer field)
+					"n" + name + optws() + ">" + optws() + "0.5",
+					"n" + name + optws() + "=" + optws() + "1.0",
 					// datetime literals: white space is allowed inside the parentheses
 					"d" + name + optws() + ">=" + optws() + "datetime(" + optws() + "2020-06-01T00:00:00Z" + optws() + ")",
 					"d" + name + ws() + kw("in") + ws() + "[datetime(" + optws() + "2021-01-01T00:00:00Z" + optws() + ")" + optws() + "]",
